@@ -317,6 +317,13 @@ class SymBackend(BackendBase):
     def try_public_laws(self, unis, laws):
         """native side only"""
 
+    def uf_twin(self, u):
+        """the same function without the injected fault"""
+        t = self.I.make_ufunc(u.name, u.arity, u.ret, label=u.label + ".ok")
+        self.by_oid[t.oid] = u.label + ".ok"
+        self.objects[u.label + ".ok"] = t
+        return t
+
     # ---- private state
     def set_field(self, obj, field, value):
         obj.fields[field] = value
@@ -408,6 +415,16 @@ class SymBackend(BackendBase):
             c = pred(e)
             if lst.sym_n is not None:
                 c = self.I.or_(self.I.wrapb(lst.sym_n <= i), c)
+            acc = self.I.and_(acc, c)
+        return acc
+
+    def consecutive_all(self, lst, pred2):
+        """pred2 holds for every pair of consecutive live elements"""
+        acc = True
+        for i in range(len(lst.elems) - 1):
+            c = pred2(lst.elems[i], lst.elems[i + 1])
+            if lst.sym_n is not None:
+                c = self.I.or_(self.I.wrapb(lst.sym_n <= i + 1), c)
             acc = self.I.and_(acc, c)
         return acc
 
